@@ -57,6 +57,19 @@ BUILT["C49"] = ("E1", "exploration", "deterministic simulation with virtual cloc
 BUILT["C56"] = ("E1", "exploration", "deterministic simulation: pair of real webrtc-utils Streams over a clonable simulated data channel with a raw flag injector; operation histories checked against a reference half-close state machine",
   "exact scenario: every result of 10..60 drawn operations (read/write/flush/close/close_read/inject FIN|STOP_SENDING|RESET) equals the reference state machine fed with the same message sequence; interleaved scenario: half-done operations, dropped streams (DropListener), spurious Pending: no panic, ConnectionReset is sticky, data read is a prefix of data written",
   "flag messages carry no data; frames written atomically into the simulated channel", "5/C56")
+E2_NOTE = "stub stack: SimTransport hands (PeerId, SimMuxer) to the Swarm, so security/muxing are stubs here (real ones are covered by E1 checks); connection/listener ids come from the cfg(libp2p_verif) thread-local counters so that a run is a function of its seed"
+BUILT["C01"] = ("E2", "exploration", "deterministic simulation: 2-5 real Swarms over a simulated transport/executor/clock, seeded operation + fault sequences, reference model folded from returned events, history check at quiescence",
+  "Seeded search over workloads (dials with every PeerCondition, behaviour dials, closes, disconnects, resets, denials, refused/hanging/late dials, failing/hanging upgrades) and task interleavings; online: no double resolution, no ConnectionClosed without/after close, no establishment without a pending attempt; at the fault-free end: nothing unresolved, nothing left established, behaviour lifecycle sequence == SwarmEvent lifecycle sequence",
+  E2_NOTE, "5/C01")
+BUILT["C02"] = ("E2", "exploration", "deterministic simulation: invariant after every returned SwarmEvent and every Swarm::dial call against a reference count model",
+  "Exact equality of the six counters, num_peers, connected_peers(), is_connected(p) and the num_established carried by events with the model, after every event of every node in every run, faults included",
+  E2_NOTE, "5/C02")
+BUILT["C06"] = ("E2", "fault_enumeration", "deterministic simulation with denial faults enumerated over (composition slot x decision point), probe behaviours inside a derived composite",
+  "All 12 (slot, point) combinations across runs with 30-90% denial rates plus background denials: denied ids are never established/counted/used, exactly one Denied failure per field and one error event, muxer closed; no Denied error without a denial",
+  E2_NOTE, "5/C06")
+BUILT["C58"] = ("E2", "exploration", "deterministic simulation: every E2 run drives a #[derive(NetworkBehaviour)] composite of three probe fields; cross-field consistency oracles",
+  "Identical FromSwarm sequences in all fields, handler events (Echo) return to the emitting field, denied iff some field denied, union of field addresses is what gets dialled (checked with C04)",
+  E2_NOTE, "5/C58")
 NOT_YET = {}
 
 def main():
